@@ -1479,6 +1479,10 @@ class CodeGenerator(NodeVisitor):
         """
         const = node.as_const(frame.eval_ctx)
 
+        # Whether to escape is only known at runtime in a volatile frame.
+        if frame.eval_ctx.volatile:
+            raise nodes.Impossible()
+
         if frame.eval_ctx.autoescape:
             const = escape(const)
 
